@@ -183,10 +183,10 @@ var CfgC15 = reg(&MachineCfg{
 })
 
 var CfgC07 = reg(&MachineCfg{
-	Prop: "C07",
-	Gens: []interface{}{"burn", 48, "commit", 30, "bank", 10, "aol", 4, "pnft", 4, "crash", 2, "restart", 2},
-	Bias: map[string]int{"right-signers": 95, "exec": 0, "vesting": 4},
-	Rule: "block histories in which coins of 1-3 denominations reach the burn address by send, multi-send, several transfers per block, dust/huge amounts and by creating delayed/continuous/periodic/permanently locked vesting accounts at that address, with empty blocks and unrelated traffic; oracle = spendable/supply/balance accounting across EndBlock on the deliver state plus every crisis invariant after Commit; non-trivial = the burn address was spendable at >=2 EndBlocks",
+	Prop:       "C07",
+	Gens:       []interface{}{"burn", 48, "commit", 30, "bank", 10, "aol", 4, "pnft", 4, "crash", 2, "restart", 2},
+	Bias:       map[string]int{"right-signers": 95, "exec": 0, "vesting": 4},
+	Rule:       "block histories in which coins of 1-3 denominations reach the burn address by send, multi-send, several transfers per block, dust/huge amounts and by creating delayed/continuous/periodic/permanently locked vesting accounts at that address, with empty blocks and unrelated traffic; oracle = spendable/supply/balance accounting across EndBlock on the deliver state plus every crisis invariant after Commit; non-trivial = the burn address was spendable at >=2 EndBlocks",
 	NonTrivial: func(w *world.World) bool { return lab(w, "c07 burn address spendable at EndBlock") >= 2 },
 	Step: func(g *G, kind string) *world.Step {
 		if kind != "burn" {
@@ -198,7 +198,9 @@ var CfgC07 = reg(&MachineCfg{
 
 var mixedGens = []interface{}{"aol", 22, "did", 18, "pnft", 22, "burn", 6, "bank", 4, "authz", 3}
 
-func withGens(extra ...interface{}) []interface{} { return append(append([]interface{}{}, mixedGens...), extra...) }
+func withGens(extra ...interface{}) []interface{} {
+	return append(append([]interface{}{}, mixedGens...), extra...)
+}
 
 var CfgC09 = reg(&MachineCfg{
 	Prop: "C09", Also: agreement, Twin: true, Perturb: true,
@@ -214,9 +216,9 @@ var CfgC09 = reg(&MachineCfg{
 
 var CfgC10 = reg(&MachineCfg{
 	Prop: "C10", Also: agreement, Twin: true,
-	Gens: withGens("commit", 14, "crash", 5, "crash_redeliver", 6, "crash_endblock", 3, "restart", 2, "export", 1),
-	Bias: map[string]int{"right-signers": 92, "exec": 3, "right-proof": 80},
-	Rule: "histories with stop points after Commit, after BeginBlock, after any prefix of a block's txs and after EndBlock-before-Commit: the instance is abandoned and a new application is opened on the same database; oracle = height, app hash and every mounted store equal the committed snapshot, the re-delivered block reproduces its results, and every later block hash equals a twin that never stopped; non-trivial = a crash inside a block after >=1 delivered tx",
+	Gens:       withGens("commit", 14, "crash", 5, "crash_redeliver", 6, "crash_endblock", 3, "restart", 2, "export", 1),
+	Bias:       map[string]int{"right-signers": 92, "exec": 3, "right-proof": 80},
+	Rule:       "histories with stop points after Commit, after BeginBlock, after any prefix of a block's txs and after EndBlock-before-Commit: the instance is abandoned and a new application is opened on the same database; oracle = height, app hash and every mounted store equal the committed snapshot, the re-delivered block reproduces its results, and every later block hash equals a twin that never stopped; non-trivial = a crash inside a block after >=1 delivered tx",
 	NonTrivial: func(w *world.World) bool { return lab(w, "crash after delivered txs") > 0 },
 	Step:       burnStep,
 })
